@@ -125,11 +125,14 @@ def run_real(p, cats, gram, doc, scores, **kw):
     """depccg.parsing.run on a batch; returns list of per-sentence [(score_int or None, tree_sig)]"""
     st = native.setup()
     funcs = kw.pop('funcs', None)
+    cat_list = kw.pop('cat_list', None)      # a caller-owned list object (must come back untouched)
+    root_list = kw.pop('root_list', None)
     args = dict(unary_penalty=p.penalty / S.SCALE, beta=p.beta, use_beta=p.use_beta, pruning_size=p.pruning,
                 nbest=p.nbest, max_step=p.max_step)
     args.update(kw)
     bfun, ufun = funcs if funcs else (gram.binary, gram.unary)
-    res = st['parsing'].run(doc, scores, cats[:p.T], [cats[r] for r in p.roots], bfun, ufun, **args)
+    res = st['parsing'].run(doc, scores, cats[:p.T] if cat_list is None else cat_list,
+                            [cats[r] for r in p.roots] if root_list is None else root_list, bfun, ufun, **args)
     return res
 
 
